@@ -1101,3 +1101,25 @@ impl LocalPeerService {
         Self::synchronise_room(room_id, query_service, peer_service, discret_services).await
     }
 }
+
+// verification hook (feature `verif`, add-only): public entry to the private handler of local room events
+// (the code that admits a room to a live connection). Only calls the real function.
+#[cfg(feature = "verif")]
+impl LocalPeerService {
+    pub async fn verif_process_local_event(
+        msg: LocalEvent,
+        remote_key: &Arc<Mutex<Vec<u8>>>,
+        event_sender: &Sender<RemoteEvent>,
+        remote_rooms: &HashSet<Uid>,
+        inbound_query_service: &InboundQueryService,
+    ) -> Result<(), crate::Error> {
+        Self::process_local_event(
+            msg,
+            remote_key,
+            event_sender,
+            remote_rooms,
+            inbound_query_service,
+        )
+        .await
+    }
+}
